@@ -35,7 +35,8 @@ theorem structuredMapRow_disp (name : String) (ext : List String) (m : MapRow) (
     m.kind = .d ∧ m.node = some n ∧ n ∈ ext := by
   unfold structuredMapRow at hk hn
   by_cases hv : (m.varName == "nan") = true <;> simp only [hv, if_true, Bool.false_eq_true, if_false] at hk hn <;>
-    cases hnode : m.node <;> simp only [hnode] at hk hn <;> (try (split at hk)) <;> simp_all
+    cases hnode : m.node <;> simp only [hnode] at hk hn <;> (try (split at hk)) <;>
+    (try (cases hkind : m.kind <;> simp only [hkind, innerKind] at hk <;> (try exact absurd hk (by decide)))) <;> simp_all
 
 /-- a dispatch row at an external node stays what it is (up to asset and variable name) -/
 theorem structuredMapRow_of_ext (name : String) (ext : List String) (m : MapRow) (n : String)
@@ -44,12 +45,19 @@ theorem structuredMapRow_of_ext (name : String) (ext : List String) (m : MapRow)
   unfold structuredMapRow
   by_cases hv : (m.varName == "nan") = true <;> simp [hv, hn, he]
 
-/-- a row at a non-external node is typed internal -/
+/-- a row at a non-external node is never a dispatch row: dispatch ('d') and internal ('i') rows are typed
+    internal, rows of any other kind (the 'size' of a scaled asset) keep their kind -/
 theorem structuredMapRow_of_inner (name : String) (ext : List String) (m : MapRow) (n : String)
     (hn : m.node = some n) (he : n ∉ ext) :
-    (structuredMapRow name ext m).kind = .i := by
+    (structuredMapRow name ext m).kind = innerKind m.kind := by
   unfold structuredMapRow
   by_cases hv : (m.varName == "nan") = true <;> simp [hv, hn, he]
+
+theorem structuredMapRow_of_inner_ne_d (name : String) (ext : List String) (m : MapRow) (n : String)
+    (hn : m.node = some n) (he : n ∉ ext) :
+    ((structuredMapRow name ext m).kind == .d) = false := by
+  rw [structuredMapRow_of_inner name ext m n hn he]
+  cases m.kind <;> rfl
 
 @[simp] theorem nToS_eval (r : Row) (x : Vec) : r.nToS.eval x = r.eval x := by
   unfold Row.nToS; cases r.kind <;> rfl
